@@ -52,7 +52,7 @@ FLAVOUR = "asan"
 
 def generate(rng, tier):
     thorough = tier == "thorough"
-    streams = R.base_streams(rng, 6000 if thorough else 1600, max_len=30000, legacy_max=200000 if thorough else 3000, small=False)
+    streams = R.base_streams(rng, 4500 if thorough else 1600, max_len=30000, legacy_max=200000 if thorough else 3000, small=False)
     if streams is None:
         return R.build_error_case()
     cases = R.regression_cases(FLAVOUR, ORACLES, kd=False) + R.selftest_cases(FLAVOUR)
@@ -66,7 +66,7 @@ def generate(rng, tier):
         for tag, data in R.mutations(rng, s, pool, "dense" if thorough and len(s.data) < 300 else "light"):
             cases.append(R.make_case(data, "01234", FLAVOUR, ORACLES, (tag, "mut:" + s.cls), base=s.data))
     # structure-aware corruption of every located small-integer field; tamper-hook streams (semantic corruption)
-    cases += R.structured_cases(rng, tier, FLAVOUR, ORACLES, n_each=12 if thorough else 5)
+    cases += R.structured_cases(rng, tier, FLAVOUR, ORACLES, n_each=8 if thorough else 5)
     cases += R.tamper_cases(rng, tier, FLAVOUR, ORACLES, budget=None if thorough else 6000)
     return cases
 
